@@ -168,7 +168,9 @@ def contract(bx):
     o.append('')
     o.append('fn %s::read_box' % ty)
     o.append('  ensures')
-    o.append('    [C04+C05.%s.decode]  r matches Ok(b) ==> %s_at(old(reader).data(), old(reader).pos() - 8, b) && %s_rd_wire(b)' % (n, n, n))
+    # the decoded header fields feed the fragment lookups (C09) / the reported track and movie configuration (C14)
+    extra = {'tfhd': '+C09', 'tfdt': '+C09', 'trex': '+C09', 'mehd': '+C09', 'mvhd': '+C14', 'tkhd': '+C14', 'mdhd': '+C14'}.get(n, '')
+    o.append('    [C04+C05%s.%s.decode]  r matches Ok(b) ==> %s_at(old(reader).data(), old(reader).pos() - 8, b) && %s_rd_wire(b)' % (extra, n, n, n))
     o.append('')
     o.append('fn %s::write_box' % ty)
     o.append('  requires')
